@@ -283,13 +283,14 @@ Definition op_ok (g : grid) (p : op) : Prop :=
 
 Lemma step_inv g o p : op_ok g p -> Inv g (comps o) -> Inv g (comps (fst (step assign g o p))).
 Proof.
-  intros Hok Hi. destruct p as [fs cd| |c f t]; cbn [step].
+  intros Hok Hi. destruct p as [fs cd| |c f t|]; cbn [step].
   - destruct (vectorial o); [|exact Hi].
     pose proof (set_faces_inv g false (comps o) fs cd Hi) as H.
     destruct (set_faces assign false g (comps o) fs cd) as [cs r]. exact H.
   - destruct (vectorial o); [|exact Hi]. cbn. apply internal_inv. exact Hi.
   - destruct ((c <? length (comps o)) && (f <? nf g)); [|exact Hi]. cbn.
     apply map_nth_inv; [|exact Hi]. intros c0. apply assign_wf. exact Hok.
+  - exact Hi.
 Qed.
 
 Theorem history_partition g : forall ps o,
@@ -317,6 +318,68 @@ Proof.
   destruct (loop_uniform g t c0 Hp (named (Some fs)) cs Hlt) as [_ [F [HF [_ [HI HU]]]]].
   rewrite Hloop in HF. cbn [fst] in HF. exists F. split; [exact HF|]. split; [|exact HU].
   intros c f Hc Hf. apply HI; [|exact Hf]. rewrite Forall_forall in Hl. auto.
+Qed.
+
+(* list conditions, repeated faces: the LAST condition given for a face wins *)
+Fixpoint last_ty (fs : list nat) (ts : list ty) (f : nat) : option ty :=
+  match fs, ts with
+  | a :: fr, t :: tr =>
+      match last_ty fr tr f with
+      | Some t' => Some t'
+      | None => if a =? f then Some t else None
+      end
+  | _, _ => None
+  end.
+
+Lemma loop_list g : forall fs cds cs cs',
+    length fs = length cds -> Forall (fun f => f < nf g) fs ->
+    loop assign cs fs cds = (cs', None) ->
+    exists ts, Forall2 (fun c t => parse c = Some t) cds ts /\
+    exists F, cs' = map F cs /\
+              (forall c, lens g c -> lens g (F c)) /\
+              (forall c f, lens g c ->
+                 flags (F c) f = match last_ty fs ts f with
+                                 | Some t => triple t
+                                 | None => flags c f
+                                 end).
+Proof.
+  induction fs as [|a fr IH]; intros cds cs cs' Hlen Hfs Hloop.
+  - destruct cds; [|discriminate]. cbn in Hloop. inversion Hloop; subst.
+    exists []. split; [constructor|]. exists (fun c => c). rewrite map_id.
+    split; [reflexivity|]. split; [auto|]. intros c f _. reflexivity.
+  - destruct cds as [|c0 cr]; [discriminate|]. inversion Hfs as [|? ? Ha Hfr]; subst.
+    cbn [loop] in Hloop. destruct (parse c0) as [t|] eqn:Hp; [|discriminate].
+    assert (Hl' : length fr = length cr) by (cbn in Hlen; lia).
+    destruct (IH cr (map (assign a t) cs) cs' Hl' Hfr Hloop) as [ts [HF2 [F [HF [HL HS]]]]].
+    exists (t :: ts). split; [constructor; assumption|].
+    exists (fun c => F (assign a t c)). split; [rewrite HF, map_map; reflexivity|]. split.
+    + intros c Hl. apply HL, assign_lens, Hl.
+    + intros c f Hl. rewrite HS by (apply assign_lens; exact Hl). cbn [last_ty].
+      destruct (last_ty fr ts f) as [t'|]; [reflexivity|].
+      destruct (Nat.eqb_spec a f) as [->|Hne].
+      * apply (assign_flags_eq g); assumption.
+      * apply assign_flags_neq. exact Hne.
+Qed.
+
+Theorem assignment_list_exact g w cs fs cl cs' x :
+  Forall (lens g) cs ->
+  set_faces assign w g cs (Some fs) (Some (CList cl)) = (cs', Done x) ->
+  exists ts, Forall2 (fun c t => parse c = Some t) cl ts /\
+  exists F, cs' = map F cs /\
+            forall c f, In c cs ->
+              flags (F c) f = match last_ty (named (Some fs)) ts f with
+                              | Some t => triple t
+                              | None => flags c f
+                              end.
+Proof.
+  intros Hl Hs.
+  destruct (set_faces_success _ _ _ _ _ _ _ Hs) as [[Hf _]|[cd0 [cds [Hcd [Hcds [Hb [Hlen Hloop]]]]]]];
+    [discriminate|]. inversion Hcd; subst cd0. subst cds.
+  assert (Hlt : Forall (fun f => f < nf g) (named (Some fs))).
+  { apply Forall_forall. intros f Hf. apply is_bf_lt. rewrite forallb_forall in Hb. auto. }
+  destruct (loop_list g _ _ _ _ Hlen Hlt Hloop) as [ts [HF2 [F [HF [_ HS]]]]].
+  exists ts. split; [exact HF2|]. exists F. split; [exact HF|].
+  intros c f Hc. apply HS. rewrite Forall_forall in Hl. auto.
 Qed.
 
 (* ---------------- the pre-fix assignment breaks the partition ---------------- *)
